@@ -24,7 +24,7 @@ LEVEL_TEXT = {
 }
 LEVEL_TEXT.update({
     'C11': 'Unbounded deductive proof (Verus) that every operation of the per-signal trap record preserves "installed disposition = max(internal need, user action)" from every state, refuses to trap or reset an initially ignored signal without override, leaves everything unchanged on failure, and handles the pending flag exactly once per catch; the same invariant for all signals of the table under set_action, the internal-disposition functions and subshell entry (TrapSet::enter_subshell); an inductive invariant over all histories, which is what the property quantifies over.',
-    'C08': 'Unbounded deductive proof (Verus) of the trap-reset clause only (command traps reset to default with the parent state saved, ignores kept, on subshell entry: per record and for the whole table, TrapSet::enter_subshell). The rest of C08 (isolation of all other state under every interleaving) is outside what a function contract can state and is not claimed.',
+    'C08': 'Unbounded deductive proof (Verus) of the trap-reset clause and of the open-files clause for pipelines only (command traps reset to default with the parent state saved, ignores kept, on subshell entry: per record and for the whole table, TrapSet::enter_subshell). Also: PipeSet::shift leaves no pipe descriptor behind in the parent and move_to_stdin_stdout wires the child to the previous and the next pipe. The rest of C08 (isolation of all other state under every interleaving) is outside what a function contract can state and is not claimed.',
 })
 LEVEL_TEXT.update({
     'C01': 'Kernel only. Unbounded deductive proof (Verus): Ranges::next equals a reference IFS splitter on every input; only unquoted expansion results are classified as separators; the unset-or-null table of the switch forms equals XCU 2.6.2. Bounded (Kani, concrete enumeration): the real Ifs::new/non_whitespaces/Ranges::next against an executable reference for five IFS values and inputs of <= 2-3 characters. The statement as a whole (all expansion forms x all shell states) runs through async code and is not decided.',
@@ -48,7 +48,7 @@ NOTE = {
 }
 NOTE.update({
     'C11': 'Trusted: Verus/Z3; model SignalSystem trait (sync, &mut self); async/await stripped; hash_map::Entry contract used for btree_map::Entry; derived PartialEq/Ord assumed structural; iteration over the table through an assumed model of the mutable map iterator. Covered on the table: set_action, internal dispositions, enter_subshell, catch/take of a named signal. Not covered: take_caught_signal, timing of trap execution.',
-    'C08': 'Decides one clause of C08 (trap reset on subshell entry) and nothing else; same trusted base as C11.',
+    'C08': 'Decides two clauses of C08 and nothing else: trap reset on subshell entry (same trusted base as C11) and, for pipelines, that the parent is left with the descriptors it had (PipeSet, against an assumed model of the descriptor table).',
 })
 NOTE.update({
     'C01': 'Kernel only (field splitting). Trusted: Verus/Z3, vstd iterator model; IFS membership uninterpreted; reference splitter is my reading of XCU 2.6.5. Not covered: parameter expansion modifiers, nounset, $@/$* joining, quote removal, read, lexer.',
@@ -71,7 +71,7 @@ TECH = {
 
 TECH.update({
     'C11': 'contract-based deductive verification (Verus, Z3): inductive invariant of the per-signal trap record',
-    'C08': 'contract-based deductive verification (Verus, Z3) of GrandState::enter_subshell / ignore',
+    'C08': 'contract-based deductive verification (Verus, Z3) of GrandState::enter_subshell / ignore, TrapSet::enter_subshell and PipeSet::shift / move_to_stdin_stdout',
 })
 
 
